@@ -17,6 +17,11 @@ def non_production(fid):
         return True
     if "::tests::" in fid or "::test::" in fid:
         return True
+    # trait impls of test-framework types: `<impls::test_framework::X as Trait>::method`
+    if fid.startswith("<"):
+        head = fid[1:].split(" as ", 1)[0]
+        if any(head.startswith(p) for p in NON_PRODUCTION):
+            return True
     return False
 
 
